@@ -659,6 +659,15 @@ def mon_C01(case, toks):
                 if c not in gone and last.get(c) == "P" and not woken:
                     return f"{where}: child {c} returned Pending, its most recent waker has fired since, the combinator returned Pending and parent waker {curpid} was never woken (lost wake-up)"
         return None
+
+    def nobody_holds_a_waker():
+        """the combinator returned Pending, its task has not been woken since that poll began, and no child it still owns holds a waker (none of them
+        answered Pending last): no wake-up is outstanding, the task can never be polled again"""
+        if woken or dropped:
+            return None
+        if any(last.get(c) == "P" and c not in gone for c in last):
+            return None
+        return f"the combinator returned Pending to parent {curpid} although no child holds a waker (none answered Pending last) and the parent was not woken: pending with no wake-up outstanding"
     for e in tr.ev:
         if e[0] == "B":
             curpid = e[1]
@@ -684,7 +693,7 @@ def mon_C01(case, toks):
             if e[1] == "X":
                 return None
             retpend = (e[1] == "P")
-            r = check("at the end of the poll")
+            r = check("at the end of the poll") or (nobody_holds_a_waker() if retpend else None)
             if r:
                 return r
         elif e[0] == "d":
